@@ -12,23 +12,25 @@ size_t _Hash_bytes(const void* ptr, size_t len, size_t seed) {
   return h;
 }
 namespace __detail {
+// integer-only (the engine does not interpret floating point): valid for the default max_load_factor of 1.0, which is all the
+// anyflow code uses
 std::pair<bool, std::size_t> _Prime_rehash_policy::_M_need_rehash(std::size_t n_bkt, std::size_t n_elt, std::size_t n_ins) const {
-  if (n_elt + n_ins > _M_next_resize) {
-    double min_bkts = (double)(n_elt + n_ins) / (double)_M_max_load_factor;
-    if (min_bkts >= (double)n_bkt) {
-      std::size_t want = (std::size_t)min_bkts + 1; std::size_t grown = n_bkt * 2 + 1;
-      std::size_t nb = want > grown ? want : grown;
-      _M_next_resize = (std::size_t)((double)nb * (double)_M_max_load_factor);
+  std::size_t want = n_elt + n_ins;
+  if (want > _M_next_resize) {
+    if (want >= n_bkt) {
+      std::size_t grown = n_bkt * 2 + 1; std::size_t nb = want + 1 > grown ? want + 1 : grown;
+      _M_next_resize = nb;
       return std::make_pair(true, nb);
     }
-    _M_next_resize = (std::size_t)((double)n_bkt * (double)_M_max_load_factor);
-    return std::make_pair(false, (std::size_t)0);
+    _M_next_resize = n_bkt;
   }
   return std::make_pair(false, (std::size_t)0);
 }
 }  // namespace __detail
 }  // namespace std
 namespace absl { inline namespace debian3 { namespace container_internal {
+alignas(16) extern const ctrl_t kEmptyGroup[16] = {ctrl_t::kSentinel, ctrl_t::kEmpty, ctrl_t::kEmpty, ctrl_t::kEmpty, ctrl_t::kEmpty, ctrl_t::kEmpty, ctrl_t::kEmpty,
+  ctrl_t::kEmpty, ctrl_t::kEmpty, ctrl_t::kEmpty, ctrl_t::kEmpty, ctrl_t::kEmpty, ctrl_t::kEmpty, ctrl_t::kEmpty, ctrl_t::kEmpty, ctrl_t::kEmpty};
 bool ShouldInsertBackwards(size_t, const ctrl_t*) { return false; }
 template FindInfo find_first_non_full<void>(const ctrl_t*, size_t, size_t);
 void ConvertDeletedToEmptyAndFullToDeleted(ctrl_t* ctrl, size_t capacity) {
